@@ -594,10 +594,89 @@ func c05(c *core.Ctx) {
 		c.EndRule()
 	}
 
+	// ---------------------------------------------------------------- R11
+	if c.Rule("R11", "the in-process handler's RecvMsg waits for the one message it returns: on no path of it does a second blocking receive from the request channel follow the first — on a full-duplex channel the client need not send or half-close until it has seen a reply, so a handler that is made to wait for 'what comes after' its request never gets to reply", 1) {
+		n := 0
+		for _, nt := range streamTypes(p, "ServerStream", "RecvMsg") {
+			if pkgSuffixOf(nt) != "inprocgrpc" {
+				continue
+			}
+			fn := declaredMethod(p, nt, "RecvMsg")
+			if fn == nil {
+				continue
+			}
+			var takes func(f *ssa.Function, depth int) bool
+			takes = func(f *ssa.Function, depth int) bool {
+				if f == nil || f.Blocks == nil || depth > 2 {
+					return false
+				}
+				if receivesFromParam(f) {
+					return true
+				}
+				found := false
+				core.Instrs(f, func(in ssa.Instruction) {
+					switch x := in.(type) {
+					case *ssa.Select:
+						for _, st := range x.States {
+							if st.Dir == types.RecvOnly && isFrameChan(st.Chan.Type()) {
+								found = true
+							}
+						}
+					case *ssa.UnOp:
+						if x.Op == token.ARROW && isFrameChan(x.X.Type()) {
+							found = true
+						}
+					case *ssa.Call:
+						if h := x.Call.StaticCallee(); h != nil && h != f && core.PkgIs(h, "inprocgrpc") && takes(h, depth+1) {
+							found = true
+						}
+					}
+				})
+				return found
+			}
+			isTake := func(in ssa.Instruction) bool {
+				switch x := in.(type) {
+				case *ssa.Select:
+					for _, st := range x.States {
+						if st.Dir == types.RecvOnly && isFrameChan(st.Chan.Type()) {
+							return true
+						}
+					}
+				case *ssa.UnOp:
+					return x.Op == token.ARROW && isFrameChan(x.X.Type())
+				case *ssa.Call:
+					h := x.Call.StaticCallee()
+					return h != nil && core.PkgIs(h, "inprocgrpc") && takes(h, 0)
+				}
+				return false
+			}
+			_, mx, ok := core.CountRange(core.Entry(fn), isTake, nil)
+			n++
+			key := core.FuncName(fn) + ":one-receive-per-call"
+			switch {
+			case !ok:
+				c.Undecided(key, fn.Pos(), "no return reachable")
+			case mx == 0:
+				c.Fail(key, fn.Pos(), "ANCHOR-MISSING: the handler's RecvMsg takes nothing from the request channel")
+			case mx > 1:
+				c.Fail(key, fn.Pos(), "the handler's RecvMsg can wait for a second frame after it has one (a look-ahead for a surplus request, say): it returns only when the client sends again or half-closes, which a full-duplex client may do only after the reply this handler has yet to send")
+			default:
+				c.Ok(key, fn.Pos(), "exactly one frame is waited for per call")
+			}
+		}
+		if n == 0 {
+			c.Missing("in-process server stream RecvMsg")
+		}
+		c.EndRule()
+	}
+
 	// ---------------------------------------------------------------- R9 (shared)
 	// a header accessor that stays in its receiving state takes (and blocks for) another frame on every call: on a
 	// ping-pong stream the second Header() blocks for ever holding the receive lock (C20/R6)
 	c.Borrow("C20", map[string]string{"R6": "R9"}, c20)
+	// a reply frame that is not flushed is a reply the client waits for until the handler returns — and a handler
+	// that waits for the client's answer to it never returns (C01/R12)
+	c.Borrow("C01", map[string]string{"R12": "R12"}, c01)
 
 }
 
